@@ -462,9 +462,25 @@ def apply_damage(data, kind, off, val):
     return data[:off] + bytes([val]) + data[off + 1:]
 
 
+def newname_class(t, kind, off, val):
+    """For a substitution in a used section-table name cell: what the new value names -- "present" (a section the table
+    already lists: a duplicate), "unused" (a valid name the table does not list) or "invalid"; "" otherwise."""
+    if kind != "subst" or t.fmt == "fm":
+        return ""
+    c = t.classes[off]
+    if not c[0].endswith("tbl.name"):
+        return ""
+    if val >= LIB_LIMIT:
+        return "invalid"
+    pre = c[0][:-len("tbl.name")]
+    present = set(x[1] for x in t.classes if x is not None and x[0] == c[0] and x[1])
+    return "present" if SECT_NAMES[val] in present else "unused"
+
+
 def event(t, kind, off, val, r, idn):
     c = t.classes[off] if kind != "none" else ("none", "", 0)
     return {"ev": "Case", "id": idn, "fmt": t.fmt, "route": t.route, "kind": kind, "off": off, "val": val,
+            "newname": newname_class(t, kind, off, val),
             "cls": c[0], "sect": c[1], "byte": c[2],
             "exit": int(r["exit"]), "sig": int(r["sig"]), "timeout": bool(r["timeout"]),
             "fault": bool(r["fault"]), "diag": bool(r["diag"]), "same": bool(same_outputs(t, r))}
